@@ -59,9 +59,10 @@ impl SegmentSizes {
     }
 
     pub fn on_payload_delivered(&mut self, payload_size: usize) {
-        let payload_size = payload_size.min(u16::MAX as usize) as u16;
+        // A delivered payload proves the path up to its size, but never beyond our ceiling: the peer
+        // may use larger payloads than our link MTU (or an already failed probe) allows us to send.
+        let payload_size = payload_size.min(self.max_ss as usize) as u16;
         self.min_ss = self.min_ss.max(payload_size);
-        self.max_ss = self.max_ss.max(self.min_ss);
     }
 
     pub fn mss(&self) -> u16 {
